@@ -37,7 +37,9 @@ Bump(snap, I) ==
 (*                 ValueError, nothing changes (checked before any write)   *)
 (*   EmptySpan     e <= t: nothing becomes present, nothing changes         *)
 (*   NewPair       first interval, '+' at t, '-' at e when e is given       *)
-(*   Contained     span inside the last interval: nothing changes           *)
+(*   Contained     span inside the last interval: presence unchanged; when  *)
+(*                 the call names the vanishing time of that interval (e-1  *)
+(*                 is its end) the '-' event at e is recorded               *)
 (*   ExtendOverlap / ExtendAdjacent                                         *)
 (*                 last interval grows to end; the '-' that closed it moves *)
 (*                 to end+1.  KF1 (pinned by test_stream_interactions): a   *)
@@ -67,7 +69,10 @@ Add(G, u, v, t, e) ==
                      !.snap = Bump(@, t .. end)],
      res |-> "ok", br |-> "NewPair"]
   ELSE LET la == s[k][1]  lb == s[k][2] IN
-    IF end <= lb THEN [g |-> G, res |-> "ok", br |-> "Contained"]
+    IF end <= lb THEN
+      \* Contained; a call that names the vanishing time of the last interval records the event
+      [g |-> [G EXCEPT !.ev = IF hasE /\ end = lb THEN @ \cup {<<p, "-", end + 1>>} ELSE @],
+       res |-> "ok", br |-> "Contained"]
     ELSE IF t <= lb + 1 THEN
       LET closed == <<p, "-", lb + 1>> \in G.ev
           close  == G.rem /\ (hasE \/ closed \/ lb > la \/ "KF1" \notin KF)
